@@ -25,6 +25,8 @@ INVARIANT StepsMeasureOK
 INVARIANT StepsPostselectOK
 INVARIANT StepsCopyOK
 INVARIANT WalkOK
+INVARIANT WideCircOK
+INVARIANT Drift_WideCirc
 INVARIANT Drift_Measure
 INVARIANT Drift_FromStab
 INVARIANT Drift_Refusal
